@@ -34,7 +34,7 @@ pub struct Trace {
 }
 
 fn latest_parent_woken(k: usize) -> bool {
-    w(|w| w.log.iter().any(|e| matches!(e, Ev::ParentWake { k: kk } if *kk == k)))
+    w(|w| w.parent_woken.get(k).copied().unwrap_or(false))
 }
 
 impl<'a> Run<'a> {
@@ -219,7 +219,11 @@ impl<'a> Run<'a> {
 
     /// wake-only executor until nothing more can happen
     fn finish(&mut self) {
-        let mut budget = 400;
+        // executor steps (polls + wake-ups): 400 for everything small; large scenarios (hundreds of children or
+        // source items, each needing a few polls / wake-ups) get a budget proportional to their size
+        let steps: usize = self.sc.children.iter().map(|c| c.len() + 1).sum();
+        let co = self.sc.co.as_ref().map(|c| c.len * (c.stack.len() + 2)).unwrap_or(0);
+        let mut budget = (3 * (steps + co) + 100).max(400);
         while budget > 0 {
             budget -= 1;
             if self.poll_due() {
